@@ -5,6 +5,7 @@ package sim
 import (
 	"fmt"
 	"hash/fnv"
+	"sync"
 )
 
 // splitmix64 step.
@@ -30,6 +31,10 @@ func DeriveSeed(seed int64, prop string, i int) uint64 {
 // list (clamped to the requested bound; zero when the list is exhausted). Every value handed out
 // is recorded so that a failing run can be re-executed and minimised from its tape.
 type Tape struct {
+	// mu orders draws made by goroutines of the system under test and by the scheduler. Which of
+	// them draws next is decided by the scheduler (only one runs at a time); the lock adds the
+	// memory ordering the Go memory model asks for when a goroutine was woken by a fake-clock timer.
+	mu      sync.Mutex
 	state   uint64
 	replay  []uint64
 	useRepl bool
@@ -50,6 +55,8 @@ func (t *Tape) Draw(n int) int {
 	if n <= 1 {
 		return 0
 	}
+	t.mu.Lock()
+	defer t.mu.Unlock()
 	var v uint64
 	if t.useRepl {
 		if t.pos < len(t.replay) {
@@ -129,4 +136,8 @@ func (t *Tape) Bytes(n int, kind int) []byte {
 }
 
 // Pos returns the number of draws so far.
-func (t *Tape) Pos() int { return len(t.Rec) }
+func (t *Tape) Pos() int {
+	t.mu.Lock()
+	defer t.mu.Unlock()
+	return len(t.Rec)
+}
